@@ -420,3 +420,110 @@ def gen_samplers():
 
 
 MODULES["Samplers"] = gen_samplers
+
+
+# ------------------------------------------------------------------ Publish (C18)
+def _list_expr(e, env):
+    """expressions over a python list of strings -> Lean (term, type)"""
+    if isinstance(e, ast.Constant) and isinstance(e.value, str):
+        return f"\"{e.value}\"", "Str"
+    if isinstance(e, ast.Constant) and isinstance(e.value, int):
+        return f"({e.value} : Int)", "Int"
+    if isinstance(e, ast.UnaryOp) and isinstance(e.op, ast.USub) and isinstance(e.operand, ast.Constant):
+        return f"(-{e.operand.value} : Int)", "Int"
+    if isinstance(e, ast.Name):
+        if e.id not in env:
+            raise ExtractError(f"unknown name {e.id}")
+        return e.id, env[e.id]
+    if isinstance(e, ast.Subscript):
+        b, tb = _list_expr(e.value, env)
+        i, ti = _list_expr(e.slice, env)
+        if tb != "List":
+            raise ExtractError("subscript of non-list")
+        if ti == "Nat":
+            i = f"(({i} : Nat) : Int)"
+        elif ti != "Int":
+            raise ExtractError("bad index type")
+        return f"(pyGet {b} {i})", "Str"
+    raise ExtractError("list expression " + ast.unparse(e))
+
+
+def _list_block(stmts, env, lst):
+    out = ""
+    for s in stmts:
+        if isinstance(s, ast.Pass):
+            continue
+        if isinstance(s, ast.Assign) and len(s.targets) == 1:
+            t = s.targets[0]
+            v, tv = _list_expr(s.value, env)
+            if isinstance(t, ast.Name):
+                env[t.id] = tv
+                out += f"    let {t.id} := {v}\n"
+                continue
+            if isinstance(t, ast.Subscript) and isinstance(t.value, ast.Name) and env.get(t.value.id) == "List" and tv == "Str":
+                i, ti = _list_expr(t.slice, env)
+                if ti == "Nat":
+                    i = f"(({i} : Nat) : Int)"
+                out += f"    let {t.value.id} := pySet {t.value.id} {i} {v}\n"
+                continue
+        raise ExtractError("unsupported statement in the publish reorder: " + ast.unparse(s)[:80])
+    return out + f"    {lst}\n"
+
+
+def gen_publish():
+    tree = parse("toasty/pipeline/__init__.py")
+    fn = find_def(tree, "PipelineManager.publish")
+    out = HEADER.format(src="toasty/pipeline/__init__.py, toasty/pipeline/local_io.py, toasty/pipeline/cli.py") + "namespace Gen\nnamespace Publish\n\n"
+    loop = [s for s in fn.body if isinstance(s, ast.For)]
+    if len(loop) != 1 or ast.unparse(loop[0].iter) != "os.listdir(todo_dir)":
+        raise ExtractError("publish: outer loop over approved/ changed")
+    body = loop[0].body
+    # filenames = os.listdir(...)
+    k = [i for i, s in enumerate(body) if isinstance(s, ast.Assign) and ast.unparse(s.targets[0]) == "filenames"]
+    if len(k) != 1 or ast.unparse(body[k[0]].value) != "os.listdir(os.path.join(todo_dir, uniq_id))":
+        raise ExtractError("publish: file listing changed")
+    rest = body[k[0] + 1:]
+    tr = rest[0]
+    if not isinstance(tr, ast.Try) or len(tr.body) != 1 or len(tr.handlers) != 1 or ast.unparse(tr.handlers[0].type) != "ValueError" or tr.finalbody:
+        raise ExtractError("publish: the reorder is no longer a try/except ValueError/else block")
+    a = tr.body[0]
+    if not (isinstance(a, ast.Assign) and isinstance(a.value, ast.Call) and ast.unparse(a.value.func) == "filenames.index" and len(a.value.args) == 1):
+        raise ExtractError("publish: try body is not `x = filenames.index(...)`")
+    idxvar = a.targets[0].id
+    needle, _ = _list_expr(a.value.args[0], {})
+    exc = _list_block(tr.handlers[0].body, {"filenames": "List"}, "filenames")
+    els = _list_block(tr.orelse, {"filenames": "List", idxvar: "Nat"}, "filenames")
+    out += ("/-- the reordering of the transfer list in `PipelineManager.publish` -/\n"
+            "def reorder (filenames : List String) : List String :=\n"
+            f"  match pyIndex filenames {needle} with\n  | none =>\n{exc}  | some {idxvar} =>\n{els}\n")
+    out += f"def index_name : String := {needle}\n\n"
+    # the transfer loop and the rename
+    after = [s for s in rest[1:] if not (isinstance(s, ast.Expr) and isinstance(s.value, ast.Call) and ast.unparse(s.value.func) == "print")]
+    ok_loop = (len(after) == 2 and isinstance(after[0], ast.For) and ast.unparse(after[0].iter) == "filenames" and ast.unparse(after[0].target) == "filename"
+               and "self._pipeio.put_item(*sub_components[1:], source=f)" in ast.unparse(after[0])
+               and "sub_components = [todo_dir, uniq_id, filename]" in ast.unparse(after[0])
+               and not any(isinstance(n, (ast.Break, ast.Continue, ast.Try)) for n in ast.walk(after[0])))
+    ok_rename = len(after) == 2 and ast.unparse(after[1]) == "os.rename(os.path.join(todo_dir, uniq_id), os.path.join(done_dir, uniq_id))"
+    out += f"/-- every file of the (reordered) list is transferred, in list order, errors propagate -/\ndef transfers_in_list_order : Bool := {'true' if ok_loop else 'false'}\n"
+    out += f"/-- the image is renamed into published/ by the statement following the transfer loop -/\ndef rename_after_loop : Bool := {'true' if ok_rename else 'false'}\n\n"
+    # local store writes
+    lt = parse("toasty/pipeline/local_io.py")
+    put = find_def(lt, "LocalPipelineIo.put_item")
+    src = ast.unparse(put)
+    conditional = any(isinstance(n, (ast.If, ast.Return, ast.Try)) for n in ast.walk(put))
+    direct = "with open(fpath, 'wb') as f:" in src and "shutil.copyfileobj(source, f)" in src
+    atomic = ("os.replace(" in src or "os.rename(" in src) and not direct
+    out += ("/-- `LocalPipelineIo.put_item` always (re)writes the item: no early return / existence test -/\n"
+            f"def put_unconditional : Bool := {'true' if not conditional or atomic and not any(isinstance(n, (ast.If, ast.Return)) for n in ast.walk(put)) else 'false'}\n"
+            "/-- the item appears under its final name only when completely written (temp file + rename);\n`false`: it is opened with 'wb' in place, so an interrupted transfer leaves a truncated item -/\n"
+            f"def put_atomic : Bool := {'true' if atomic else 'false'}\n\n")
+    # refresh
+    ct = parse("toasty/pipeline/cli.py")
+    rf = ast.unparse(find_def(ct, "refresh_impl"))
+    skip = "if mgr._pipeio.check_exists(uniq_id, 'index.wtml'):\n            n_done += 1\n            continue" in rf
+    out += f"/-- `refresh` treats a candidate as done exactly when `<id>/index.wtml` exists in the store -/\ndef refresh_skips_on_index : Bool := {'true' if skip else 'false'}\n\n"
+    out += "end Publish\nend Gen\n"
+    return out
+
+
+MODULES["Publish"] = gen_publish
